@@ -19,12 +19,26 @@
 //!                 run <op>, and record the result as snapshot k+1 (dropping deeper ones).
 //!                 This is how the exhaustive enumeration walks the tree of op sequences
 //!                 without replaying every prefix.
+//!
+//! Zero-sized items (`z...` ops): a `SlidingDeque<Vec<()>>` and a `SlidingDeque<Probe>` (a
+//! `Vec<()>` wrapper that publishes its length, so the backing length - hence the consumed
+//! prefix - is observable).  A `Vec<()>` of any length up to `usize::MAX` costs nothing, and
+//! every deque operation on it is O(1) (`copy_within` moves 0 bytes, `truncate` has nothing
+//! to drop), so this is where lengths and consumed prefixes near 2^63 / 2^64 are reached:
+//!   zfrom n | zadvance n | zpop_front | zpop_back | zpush | zfront | zback | zslide | zclear | zlen
+//! Observations: `zvec <ret> len=<len()>` and `zprobe <ret> len=<len()> backing=<container length>`.
+//! Oracle: the reference deque of units is its length (u128 arithmetic); the space bound is
+//! `backing - len() <= backing / 2` on the probe.  `zpush` on a backing `Vec<()>` that already
+//! holds `usize::MAX` units is not executed (`cap`): std specifies a capacity-overflow panic.
+//! Nothing here may format a deque with `{:?}` or iterate it.
 use crate::util::*;
 use sliding_deque::traits::PushTruncateContainer;
 use sliding_deque::{SlidingDeque, SlidingSmallVec, SlidingVec};
 use std::collections::VecDeque;
 use std::fmt::Debug;
+use std::cell::Cell;
 use std::panic::{catch_unwind, AssertUnwindSafe};
+use std::rc::Rc;
 
 #[derive(Clone, Debug)]
 pub enum Op {
@@ -256,6 +270,8 @@ struct SdExec {
     cur: St,
     snaps: Vec<St>,
     dead: bool,
+    /// the deques of zero-sized items (`z...` ops)
+    z: ZSt,
 }
 
 impl SdExec {
@@ -299,6 +315,265 @@ impl SdExec {
     }
 }
 
+
+// ------------------------------------------------------------------ zero-sized items
+
+/// A `Vec<()>` that publishes its length after every mutation.
+#[derive(Clone, Default)]
+pub struct Probe {
+    inner: Vec<()>,
+    backing: Rc<Cell<usize>>,
+}
+
+impl Probe {
+    fn publish(&self) {
+        self.backing.set(self.inner.len());
+    }
+}
+
+impl PushTruncateContainer for Probe {
+    type Item = ();
+    fn push(&mut self, value: ()) {
+        self.inner.push(value);
+        self.publish();
+    }
+    fn pop(&mut self) -> Option<()> {
+        let r = self.inner.pop();
+        self.publish();
+        r
+    }
+    fn truncate(&mut self, len: usize) {
+        self.inner.truncate(len);
+        self.publish();
+    }
+    fn slice(&self) -> &[()] {
+        &self.inner
+    }
+    fn slice_mut(&mut self) -> &mut [()] {
+        &mut self.inner
+    }
+}
+
+/// `n` units, in constant time and without `unsafe`: a boxed zero-sized array, truncated.
+fn unit_vec(n: usize) -> Vec<()> {
+    let boxed: Box<[()]> = Box::new([(); usize::MAX]);
+    let mut v = boxed.into_vec();
+    v.truncate(n);
+    assert_eq!(v.len(), n);
+    v
+}
+
+#[derive(Clone, Copy, Debug)]
+pub enum ZOp {
+    From(usize),
+    Advance(usize),
+    PopFront,
+    PopBack,
+    Push,
+    Front,
+    Back,
+    Slide,
+    Clear,
+    Len,
+}
+
+pub fn parse_zop(w: &[&str]) -> Option<ZOp> {
+    Some(match w {
+        ["zfrom", n] => ZOp::From(n.parse().ok()?),
+        ["zadvance", n] => ZOp::Advance(n.parse().ok()?),
+        ["zpop_front"] => ZOp::PopFront,
+        ["zpop_back"] => ZOp::PopBack,
+        ["zpush"] => ZOp::Push,
+        ["zfront"] => ZOp::Front,
+        ["zback"] => ZOp::Back,
+        ["zslide"] => ZOp::Slide,
+        ["zclear"] => ZOp::Clear,
+        ["zlen"] => ZOp::Len,
+        _ => return None,
+    })
+}
+
+fn fmt_has(b: bool) -> String {
+    if b { "some".into() } else { "none".into() }
+}
+
+/// One op on a real deque of units; returns `(return value, len())`.
+fn zapply_real<C>(d: &mut SlidingDeque<C>, op: ZOp) -> (String, usize)
+where
+    C: PushTruncateContainer<Item = ()> + Clone + Default,
+{
+    let ret = match op {
+        ZOp::From(_) => unreachable!(),
+        ZOp::Advance(n) => format!("n={}", d.advance(n)),
+        ZOp::PopFront => fmt_has(d.pop_front().is_some()),
+        ZOp::PopBack => fmt_has(d.pop_back().is_some()),
+        ZOp::Push => {
+            d.push_back(());
+            "()".to_string()
+        }
+        ZOp::Front => fmt_has(d.front().is_some()),
+        ZOp::Back => fmt_has(d.back().is_some()),
+        ZOp::Slide => {
+            d.slide();
+            "()".to_string()
+        }
+        ZOp::Clear => {
+            d.clear();
+            "()".to_string()
+        }
+        ZOp::Len => "()".to_string(),
+    };
+    let len = d.len();
+    assert_eq!(d.is_empty(), len == 0);
+    (ret, len)
+}
+
+/// Reference arithmetic in u128: the deque of units is its length `clen - consumed`;
+/// `(consumed, clen)` follows the documented policy (slide when more than half of the
+/// container is consumed, or when the deque is empty).
+#[derive(Clone, Copy, Default)]
+pub struct ZRef {
+    consumed: u128,
+    clen: u128,
+}
+
+impl ZRef {
+    fn len(&self) -> u128 {
+        self.clen - self.consumed
+    }
+    fn maybe_slide(&mut self) {
+        if self.consumed > self.clen / 2 || self.consumed == self.clen {
+            self.slide();
+        }
+    }
+    fn slide(&mut self) {
+        self.clen -= self.consumed;
+        self.consumed = 0;
+    }
+    fn apply(&mut self, op: ZOp) -> String {
+        match op {
+            ZOp::From(n) => {
+                *self = ZRef { consumed: 0, clen: n as u128 };
+                "()".into()
+            }
+            ZOp::Advance(n) => {
+                let k = (n as u128).min(self.len());
+                self.consumed += k;
+                self.maybe_slide();
+                format!("n={}", k)
+            }
+            ZOp::PopFront => {
+                let has = self.len() > 0;
+                if has {
+                    self.consumed += 1;
+                    self.maybe_slide();
+                }
+                fmt_has(has)
+            }
+            ZOp::PopBack => {
+                let has = self.len() > 0;
+                if has {
+                    self.clen -= 1;
+                    self.maybe_slide();
+                }
+                fmt_has(has)
+            }
+            ZOp::Push => {
+                self.clen += 1;
+                "()".into()
+            }
+            ZOp::Front | ZOp::Back => fmt_has(self.len() > 0),
+            ZOp::Slide => {
+                self.slide();
+                "()".into()
+            }
+            ZOp::Clear => {
+                *self = ZRef::default();
+                "()".into()
+            }
+            ZOp::Len => "()".into(),
+        }
+    }
+}
+
+struct ZSt {
+    v: SlidingDeque<Vec<()>>,
+    p: SlidingDeque<Probe>,
+    backing: Rc<Cell<usize>>,
+    r: ZRef,
+}
+
+impl ZSt {
+    fn from_len(n: usize) -> Self {
+        let backing = Rc::new(Cell::new(n));
+        let probe = Probe { inner: unit_vec(n), backing: backing.clone() };
+        ZSt { v: SlidingDeque::from(unit_vec(n)), p: SlidingDeque::from(probe), backing, r: ZRef { consumed: 0, clen: n as u128 } }
+    }
+}
+
+impl SdExec {
+    fn run_zop(&mut self, op: ZOp, text: &str) -> StepOut {
+        let mut so = StepOut::default();
+        so.tags.push(format!("op_{}", text.split(' ').next().unwrap_or("?")));
+        if let ZOp::From(n) = op {
+            self.z = ZSt::from_len(n);
+            if n as u128 >= 1u128 << 63 {
+                so.tags.push("z_from_ge_2pow63".into());
+            }
+        }
+        let z = &mut self.z;
+        if matches!(op, ZOp::Push) && z.r.clen >= usize::MAX as u128 {
+            // `Vec::<()>::push` at `usize::MAX` elements: capacity overflow, by std's specification
+            so.tags.push("z_push_at_capacity".into());
+            return StepOut { obs: vec!["cap".into()], ..so };
+        }
+        let real = if let ZOp::From(n) = op {
+            Ok((("()".to_string(), n), ("()".to_string(), n)))
+        } else {
+            catch_unwind(AssertUnwindSafe(|| (zapply_real(&mut z.v, op), zapply_real(&mut z.p, op))))
+        };
+        let expected = z.r.apply(op);
+        match real {
+            Err(_) => {
+                self.dead = true;
+                so.obs.push("panic".into());
+                so.violations.push(format!("C15 panic in `{}` on a deque of zero-sized items (no operation sequence may panic; debug assertions and overflow checks are on)", text));
+            }
+            Ok(((ra, la), (rb, lb))) => {
+                let want = z.r.len();
+                for (which, ret, len) in [("zvec", &ra, la), ("zprobe", &rb, lb)] {
+                    if *ret != expected || len as u128 != want {
+                        so.violations.push(format!(
+                            "C15 {}: `{}` gave [{} len={}] but the reference deque of units gives [{} len={}]",
+                            which, text, ret, len, expected, want
+                        ));
+                    }
+                }
+                let backing = z.backing.get() as u128;
+                let wasted = backing.wrapping_sub(lb as u128);
+                if (lb as u128) > backing || wasted > backing / 2 {
+                    so.violations.push(format!(
+                        "C15 zprobe: space bound broken after `{}`: backing length {} - len {} exceeds half of the backing length",
+                        text, backing, lb
+                    ));
+                }
+                if wasted > 0 {
+                    so.tags.push("z_consumed_nonzero".into());
+                }
+                if wasted >= 1u128 << 62 {
+                    so.tags.push("z_consumed_ge_2pow62".into());
+                }
+                if backing >= 1u128 << 63 {
+                    so.tags.push("z_backing_ge_2pow63".into());
+                }
+                so.obs.push(format!("zvec {} len={}", ra, la));
+                so.obs.push(format!("zprobe {} len={} backing={}", rb, lb, backing));
+            }
+        }
+        so
+    }
+}
+
 impl Exec for SdExec {
     fn step(&mut self, w: &[&str]) -> StepOut {
         if self.dead {
@@ -318,9 +593,10 @@ impl Exec for SdExec {
                 }
                 so
             }
-            _ => match parse_op(w) {
-                Some(op) => self.run_op(&op, &w.join(" ")),
-                None => StepOut::bad(),
+            _ => match (parse_op(w), parse_zop(w)) {
+                (Some(op), _) => self.run_op(&op, &w.join(" ")),
+                (None, Some(zop)) => self.run_zop(zop, &w.join(" ")),
+                (None, None) => StepOut::bad(),
             },
         }
     }
@@ -367,26 +643,132 @@ pub fn tree_case(prefix: &[usize], depth: usize) -> Vec<String> {
     ops
 }
 
+
+/// The lengths / counts at which machine-integer arithmetic on `usize` could go wrong.
+pub const ZEDGES: [usize; 9] = [0, 1, 2, 1 << 32, (1 << 63) - 1, 1 << 63, (1 << 63) + 1, usize::MAX - 1, usize::MAX];
+
+/// The 14-symbol alphabet of the zero-sized-item enumeration.
+pub fn zsymbol(i: usize) -> String {
+    match i {
+        0..=8 => format!("zadvance {}", ZEDGES[i]),
+        9 => "zpop_front".into(),
+        10 => "zpop_back".into(),
+        11 => "zpush".into(),
+        12 => "zslide".into(),
+        _ => "zclear".into(),
+    }
+}
+pub const ZNSYM: usize = 14;
+
+/// All sequences of `depth` z-symbols that start with `first`, each from a fresh
+/// `zfrom <len>` (one case: `zfrom` resets the deques of units).
+pub fn ztree_case(len: usize, first: usize, depth: usize) -> Vec<String> {
+    let mut ops = Vec::new();
+    let mut idx = vec![0usize; depth - 1];
+    loop {
+        ops.push(format!("zfrom {}", len));
+        ops.push(zsymbol(first));
+        ops.extend(idx.iter().map(|&s| zsymbol(s)));
+        let mut k = idx.len();
+        loop {
+            if k == 0 {
+                return ops;
+            }
+            k -= 1;
+            idx[k] += 1;
+            if idx[k] < ZNSYM {
+                break;
+            }
+            idx[k] = 0;
+        }
+    }
+}
+
+/// A random walk over deques of units whose lengths and consumed prefixes sit at the edges
+/// of `usize`: counts are aimed (through a u128 shadow of the documented policy) at "exactly
+/// half", "one more than half", "everything", and at the `ZEDGES` themselves.
+pub fn zgen_case(rng: &mut Rng, thorough: bool) -> Vec<String> {
+    let nops = rng.range(1, if thorough { 60 } else { 24 });
+    let mut ops = Vec::new();
+    let mut sh = ZRef::default();
+    let near = |rng: &mut Rng, x: u128| -> usize {
+        let d = rng.below(5) as i128 - 2;
+        (x as i128 + d).clamp(0, usize::MAX as i128) as usize
+    };
+    for i in 0..nops {
+        if i == 0 || rng.chance(1, 12) {
+            let e = *rng.pick(&ZEDGES) as u128;
+            let n = if rng.chance(1, 3) { near(rng, e) } else { e as usize };
+            let op = ZOp::From(n);
+            ops.push(format!("zfrom {}", n));
+            sh.apply(op);
+            continue;
+        }
+        let (op, text) = match rng.below(12) {
+            0..=4 => {
+                let len = sh.len();
+                let half_left = (sh.clen / 2).saturating_sub(sh.consumed); // consumes up to exactly half
+                let target = match rng.below(8) {
+                    0 => half_left,
+                    1 => half_left + 1,
+                    2 => half_left.saturating_sub(1),
+                    3 => len,
+                    4 => len.saturating_sub(1),
+                    5 => len + 1,
+                    6 => *rng.pick(&ZEDGES) as u128,
+                    _ => rng.below(4) as u128,
+                };
+                let n = if rng.chance(1, 4) { near(rng, target) } else { target.min(usize::MAX as u128) as usize };
+                (ZOp::Advance(n), format!("zadvance {}", n))
+            }
+            5 | 6 => (ZOp::PopFront, "zpop_front".to_string()),
+            7 | 8 => (ZOp::PopBack, "zpop_back".to_string()),
+            9 => (ZOp::Push, "zpush".to_string()),
+            10 => match rng.below(4) {
+                0 => (ZOp::Clear, "zclear".to_string()),
+                1 => (ZOp::Front, "zfront".to_string()),
+                2 => (ZOp::Back, "zback".to_string()),
+                _ => (ZOp::Len, "zlen".to_string()),
+            },
+            _ => (ZOp::Slide, "zslide".to_string()),
+        };
+        ops.push(text);
+        if !(matches!(op, ZOp::Push) && sh.clen >= usize::MAX as u128) {
+            sh.apply(op);
+        }
+    }
+    ops
+}
+
 impl Family for SDequeFamily {
     fn name(&self) -> &'static str {
         "sdeque"
     }
 
     fn new_exec(&self) -> Box<dyn Exec> {
-        Box::new(SdExec { cur: St::new(), snaps: vec![St::new()], dead: false })
+        Box::new(SdExec { cur: St::new(), snaps: vec![St::new()], dead: false, z: ZSt::from_len(0) })
     }
 
     /// All op sequences over the 11-symbol alphabet:
     /// * up to length 6 (quick) / 7 (thorough), walked as a tree through `clone()`d
     ///   snapshots (one case per 2-symbol prefix);
     /// * up to length 4 (quick) / 5 (thorough) as plain sequences without any clone
-    ///   (so the SmallVec keeps whatever inline/heap state the sequence itself produced).
+    ///   (so the SmallVec keeps whatever inline/heap state the sequence itself produced);
+    /// * deques of zero-sized items: from each of the 9 edge lengths `ZEDGES`, all sequences
+    ///   of 3 (quick) / 4 (thorough) symbols of the 14-symbol z-alphabet.
     fn enumerated(&self, thorough: bool) -> Vec<Vec<String>> {
         let depth = if thorough { 7 } else { 6 };
         let mut cases = Vec::new();
         for a in 0..NSYM {
             for b in 0..NSYM {
                 cases.push(tree_case(&[a, b], depth));
+            }
+        }
+        // zero-sized items: every edge length x all sequences of 3 (quick) / 4 (thorough) z-symbols
+        let zdepth = if thorough { 4 } else { 3 };
+        for &len in ZEDGES.iter() {
+            for first in 0..ZNSYM {
+                cases.push(ztree_case(len, first, zdepth));
             }
         }
         let plain = if thorough { 5 } else { 4 };
@@ -411,6 +793,9 @@ impl Family for SDequeFamily {
     /// Random sequences up to length 200 (values distinct within a case, so the view
     /// identifies every element), with a shadow length to aim indices/counts at the edges.
     fn gen_case(&self, rng: &mut Rng, _idx: u64, thorough: bool) -> Vec<String> {
+        if rng.chance(1, 8) {
+            return zgen_case(rng, thorough);
+        }
         let maxlen = if thorough { 200 } else { *rng.pick(&[12u64, 40, 200]) };
         let nops = rng.range(1, maxlen);
         let push_w = *rng.pick(&[3u64, 5, 7]); // out of 10: shrinking / balanced / growing runs
